@@ -7,9 +7,9 @@
     cache is invisible).  An operation through a kept handle is the operation on the bucket of that
     path AS IT IS NOW in the transaction's view – a handle follows a bucket that is deleted and
     created again.
-  * Contract: through the handle of a bucket that does NOT exist (any more) in the transaction's
-    view, reads are unspecified and a write takes the caller out of the contract: nothing is
-    claimed from that operation on (`outOfContract`; the driver writes orphan entries there).
+  * Contract: through the handle of a bucket that does NOT exist (any more) in the write transaction's
+    view, reads find an empty bucket (`staleRead`) and a write takes the caller out of the contract:
+    nothing is claimed from that operation on (`outOfContract`; the driver writes orphan entries there).
   * After its Rollback a read transaction finds no bucket, refuses every write with
     write-not-allowed and answers every read through a kept bucket handle with the released error.
 -/
@@ -40,6 +40,16 @@ def viaShapeOK : Op → Bool
 def mutating : Op → Bool
   | .create _ _ | .delb _ _ | .put _ _ _ _ | .del _ _ _ | .clear _ _ => true
   | _ => false
+
+/-- a read through the handle of a bucket that does not exist (any more) in the write transaction's
+    view: the bucket reads as empty and nothing is found below it (an iterator inside a write
+    transaction: no claim, as everywhere) -/
+def staleRead : Op → Obs
+  | .has _ rel => .bool (rel.length == 0)
+  | .names _ rel => if rel.length == 0 then .names [] else .nobucket
+  | .get _ rel _ => if rel.length == 0 then .val none else .nobucket
+  | .pfx _ rel _ => if rel.length == 0 then .entries [] else .nobucket
+  | _ => .unspecified
 
 structure SysX where
   base : Sys := {}
@@ -124,6 +134,7 @@ def SysX.step (s : SysX) : OpX → SysX × Obs
           if !viaShapeOK op then (s, .badop)
           else if d.has p then let r := s.base.step (reroot p op); ({ s with base := r.1 }, r.2)
           else if sl == .w && mutating op then (s, .outOfContract)
+          else if sl == .w then (s, staleRead op)
           else (s, .unspecified)
   | .dead op =>
     match s.dead with
